@@ -1,13 +1,13 @@
 SPECIFICATION Spec
 CONSTANTS
-  Ids = {"i1"}
-  Tos = {"server"}
-  RFroms = {"exact", "stranger"}
+  Ids = {"i1", "i2"}
+  Tos = {"server", "full"}
+  RFroms = {"exact"}
   Types = {"result"}
-  OpenKinds = {"plain", "smr", "resumed"}
+  OpenKinds = {"plain"}
   Cids = {"fresh", "empty", "dup"}
   IdRule = "replace"
-  MaxHist = 7
-CONSTRAINT Bound
+  MaxHist = 5
+CONSTRAINT IdsBound
 ACTION_CONSTRAINT EmitBehaviour
 CHECK_DEADLOCK FALSE
